@@ -272,4 +272,14 @@ def run(chk):
     chk.guard(r19_1, chk)
     chk.guard(r19_2, chk)
     chk.guard(r19_3, chk)
+    # j2.py is an anchor of C19 (the node drift the sun-synchronous helper targets is the one J2.propagate realises):
+    # the J2 clauses of C05 are part of this check
+    from .c05 import r05_1, r05_2, r05_3
+    from .c01 import FormTable
+    chk.rule("R05.1", "(dependency) write set of the analytical propagators")
+    chk.rule("R05.2", "(dependency) first-order secular J2 rates")
+    chk.rule("R05.3", "(dependency) initial orbit never written; fresh result")
+    chk.guard(r05_1, chk, FormTable(chk))
+    chk.guard(r05_2, chk)
+    chk.guard(r05_3, chk)
     chk.assume("Curtis, Orbital Mechanics for Engineering Students §5.3 (universal-variable Lambert); first-order J2 node rate; Walker t/p/f with p | t")
